@@ -106,6 +106,9 @@ pub fn case_from_json(v: &Value) -> Result<Case, String> {
 }
 
 pub fn replay(case: &Value) -> Result<Verdict, String> {
+    if case["kind"] == "fuzz-input" {
+        return crate::fuzzrun::replay(case);
+    }
     Ok(judge(&case_from_json(case)?))
 }
 
@@ -220,6 +223,13 @@ pub fn run(ctx: &Ctx) -> Report {
         if let Some(n) = smp.get("files").and_then(|f| f.as_array()).map(|a| a.len()) {
             smp["files"] = json!(format!("{n} random records (+ the directed set)"));
         }
+    }
+    // self-checks of the trusted base (failures are infrastructure errors, exit 2)
+    crate::selftest::fnmatch_vs_libc(ctx.seed, 30_000, &mut total);
+    crate::selftest::snapshots_read_and_run(&mut total);
+    crate::fuzzrun::replay_corpus("policy", &mut total);
+    if ctx.tier == Tier::Thorough {
+        crate::fuzzrun::campaign("policy", ctx.seed, 60_000, 8, 400, &mut total);
     }
     total.extra.insert("policy_executions_compared".into(), json!(executions.load(std::sync::atomic::Ordering::Relaxed)));
     total.extra.insert("programs".into(), json!(total.evaluations));
